@@ -133,6 +133,23 @@ for H in (2, 3):
     mk()
 
 
+@obligation('C14.LQR.cost_expansion', functions=[f'{LQRM}:LQR.__init__'], max_paths=4)
+def cost_expansion(env):
+    """a time-invariant cost given in compact form (Q: B x n x n, p: B x n) is the SAME stage cost at every step, for every batch entry:
+    the expanded cost of entry b at time t is (Q_b, p_b) - batch entries with different costs, horizon > 1"""
+    lq = env.load(LQRM); T = env.T
+    system, sysm = make_ltv(env)
+    B, H, n = 2, 3, 2
+    Qs = [T.stack([env.vec(f'Q{b}r{i}', n, regimes=('generic',)) for i in range(n)], 0) for b in range(B)]
+    ps = [env.vec(f'p{b}', n, regimes=('generic',)) for b in range(B)]
+    solver = lq.LQR(system, T.stack(Qs, 0), T.stack(ps, 0), H)
+    env.holds('expanded shapes are (B, T, n, n) and (B, T, n)', tuple(solver.Q.shape) == (B, H, n, n) and tuple(solver.p.shape) == (B, H, n))
+    for b in range(B):
+        for t in range(H):
+            env.eq(f'entry {b}, step {t}: quadratic cost is Q_{b}', solver.Q[b, t], Qs[b])
+            env.eq(f'entry {b}, step {t}: linear cost is p_{b}', solver.p[b, t], ps[b])
+
+
 class BellmanStep(loopcut.LoopContract):
     """for t in range(T-1, -1, -1): arbitrary non-terminal step with an arbitrary symmetric tail V and v"""
     modifies = ('A', 'B', 'F', 'Qt', 'qt', 'Qxx', 'Qxu', 'Qux', 'Quu', 'qx', 'qu', 'L', 'Kt', 'kt', 'V', 'v', 't',
